@@ -28,15 +28,15 @@ type handle struct {
 }
 
 type c12 struct {
-	p       *Pool
-	out     []*handle // outstanding, in Get order
-	pooled  []*region // regions given to the pool and not handed out again, in Put order
-	keep    [][]byte  // every backing array ever seen (keeps addresses unique)
-	canary  byte
-	maxOut  int
-	gcs     int
-	maxGC   int
-	sizes   []int
+	p      *Pool
+	out    []*handle // outstanding, in Get order
+	pooled []*region // regions given to the pool and not handed out again, in Put order
+	keep   [][]byte  // every backing array ever seen (keeps addresses unique)
+	canary byte
+	maxOut int
+	gcs    int
+	maxGC  int
+	sizes  []int
 }
 
 func addr(b []byte) uintptr { return uintptr(unsafe.Pointer(unsafe.SliceData(b))) }
